@@ -116,6 +116,13 @@ Definition lookups_pass_source_peer : bool := true.  (* handlers look up (frame.
     handler, 3 forward handler, 4 file transfer, 5 shell server, 6 shell
     client, 7 stream manager.  The modelled transit has only 1 and 7. *)
 Definition stream_data_dispatch_order : list N := [1; 2; 3; 4; 5; 6; 7].
+(** every handler that dispatches by stream id (STREAM_{OPEN_ACK,OPEN_ERR,DATA,
+    CLOSE,RESET}, UDP_{OPEN_ACK,OPEN_ERR,DATAGRAM,CLOSE}, ICMP_{OPEN_ACK,
+    OPEN_ERR,ECHO,CLOSE}) consults the relay table - keyed by (peer, id) -
+    before any local endpoint - keyed by the bare id - and returns when the
+    relay matched: [on_frame] only falls through to local effects when no
+    relay entry has the frame's (peer, id) as an end *)
+Definition relay_consulted_first : bool := true.
 
 Definition snapshot (t : table) : pmap entry * pmap entry := (psorted (by_up t), psorted (by_down t)).
 
